@@ -15,7 +15,19 @@ import (
 	"golang.org/x/tools/go/ssa/ssautil"
 )
 
-const repoRoot = "/repo/rolling-shutter"
+// repoRoot is the tree that is verified: /repo's working tree, or (selftest only) a scratch copy named by GOVC_REPO.
+var repoRoot = envOr("GOVC_REPO", "/repo/rolling-shutter")
+
+// outRoot receives evidence and replay files (GOVC_OUT is set by the selftest so that runs on mutated scratch
+// copies never overwrite the evidence of the real tree).
+var outRoot = envOr("GOVC_OUT", "/verif")
+
+func envOr(k, d string) string {
+	if v := os.Getenv(k); v != "" {
+		return v
+	}
+	return d
+}
 const modPath = "github.com/shutter-network/rolling-shutter/rolling-shutter"
 
 type Engine struct {
@@ -31,6 +43,7 @@ type Engine struct {
 	specSrc   map[string]string // pkg path -> contract file used
 	timeoutS  int
 	requireAll bool
+	interior   *interiorInfo
 }
 
 func identOf(dr *ssa.DebugRef) string {
@@ -80,6 +93,7 @@ func LoadEngine(patterns []string) (*Engine, error) {
 	for _, fs := range eng.funcs {
 		sort.Slice(fs, func(i, j int) bool { return fs[i].String() < fs[j].String() })
 	}
+	eng.scanInterior()
 	// contracts: externals first, then per-package files from /repo (mirror as fallback)
 	if err := eng.specs.LoadSpecFile("/verif/contracts/externals.vspec", ""); err != nil {
 		return nil, err
